@@ -1,4 +1,5 @@
 """SGE / dSGE structured genotypes: per-key uniform crossover, single-gene mutation (C06, C09)."""
+import specs.gene_sources  # noqa: F401  (declaration order)
 from pyvc.spec import REG as R, Loop
 
 SGE = "geneticengine/representations/grammatical_evolution/structured_ge.py"
